@@ -185,13 +185,37 @@ def mask_consistency(repo, res):
             if isinstance(s_, ast.Assign) and len(s_.targets) == 1 and isinstance(s_.targets[0], ast.Name):
                 defs.setdefault(s_.targets[0].id, []).append(s_.value)
 
+        # names that stand for a selection of rows: boolean masks (by name), integer row numbers computed from a condition
+        # (`np.flatnonzero(c)`, `np.nonzero(c)[0]`, ...), selections composed from them (`rows[mask[rows]]`), and whatever indexes the
+        # first axis of BHJM in a store
+        masklike = {nm for nm in defs if "mask" in nm or nm in ("out", "inside")}
+        masklike |= {x.id for x in ast.walk(fn) if isinstance(x, ast.Name) and ("mask" in x.id or x.id in ("out", "inside"))}
+        for st in ast.walk(fn):
+            tg = st.targets[0] if isinstance(st, ast.Assign) else st.target if isinstance(st, ast.AugAssign) else None
+            if isinstance(tg, ast.Subscript):
+                b_ = tg
+                while isinstance(b_.value, ast.Subscript):
+                    b_ = b_.value
+                if ast.unparse(b_.value) == "BHJM":
+                    first = b_.slice.elts[0] if isinstance(b_.slice, ast.Tuple) and b_.slice.elts else b_.slice
+                    if isinstance(first, ast.Name):
+                        masklike.add(first.id)
+        for _ in range(4):
+            for nm, vs in defs.items():
+                for v in vs:
+                    c_ = v.value if isinstance(v, ast.Subscript) and isinstance(v.slice, ast.Constant) else v
+                    if isinstance(c_, ast.Call) and getattr(c_.func, "attr", "") in ("flatnonzero", "nonzero", "where", "argwhere") and len(c_.args) == 1:
+                        masklike.add(nm)
+                    if isinstance(v, ast.Subscript) and isinstance(v.value, ast.Name) and v.value.id in masklike:
+                        masklike.add(nm)
+
         def base_masks(e, depth=0):
             """mask names an index expression is built from (following &, *, ~ and one level of local definitions)"""
             out = set()
             for x in ast.walk(e):
-                if isinstance(x, ast.Name) and ("mask" in x.id or x.id in ("out", "inside")):
+                if isinstance(x, ast.Name) and x.id in masklike:
                     if depth < 3 and x.id in defs and len(defs[x.id]) == 1 and any(
-                            isinstance(y, ast.Name) and ("mask" in y.id or y.id in ("out", "inside")) for y in ast.walk(defs[x.id][0])) and \
+                            isinstance(y, ast.Name) and y.id in masklike for y in ast.walk(defs[x.id][0])) and \
                             isinstance(defs[x.id][0], (ast.BinOp, ast.UnaryOp)):
                         out |= base_masks(defs[x.id][0], depth + 1)
                     else:
@@ -256,7 +280,7 @@ def mask_consistency(repo, res):
                 defstmt[(s_.targets[0].id, s_.lineno)] = s_
 
         def is_mask(nm):
-            return "mask" in nm or nm in ("out", "inside")
+            return nm in masklike
 
         def leaves(fact, depth=0):
             """primitive (geometry) conditions a reaching mask definition is built from, following reaching definitions"""
